@@ -16,6 +16,7 @@ From SV Require Import Model.Visibility.
 From SV Require Import Model.Directivity.
 From SV Require Import Model.Stokes.
 From SV Require Import Model.Full.
+From SV Require Import Model.Object.
 Require Extraction.
 From Coq Require Import ExtrOcamlBasic.
 Extraction Language OCaml.
@@ -31,5 +32,5 @@ Extraction "model.ml"
   visible_all check_point2patch check_patch2patch unit_of metrics_w frame_dir_n frame_dir lookup
   nearest_freq dir_index freq_index dirfac source_dirfac recv_dirfac sample_pts sample_conn
   load_stokes_entries newton_cotes_4th stokes_integration stokes_nocut coincidence_check
-  universal_branch patch2patch_ff ff_full
-  room_scene room_source room_receiver room_mono rm_patch_pts.
+  universal_branch patch2patch_ff ff_full room_scene room_source room_receiver room_mono
+  rm_patch_pts ostep otrace orun init restore oeq to_dict ocheck get all_fields dict_fields.
